@@ -254,6 +254,7 @@ func Memoize[T any](f func() T) func() T {
 	once := sync.Once{}
 	var ret T
 	return func() T {
+		verifYield("lazy.Memoize")
 		once.Do(func() {
 			ret = f()
 		})
